@@ -588,7 +588,21 @@ def iterate_model(M, interp, v, node):
         return it()
     if v is None:
         raise AbsRaise(ExcVal('TypeError', ("'NoneType' object is not iterable",)), node)
-    raise AbsRaise(ExcVal('TypeError', (f"'{type(v).__name__}' object is not iterable",)), node)
+    if isinstance(v, Instance):
+        for meth in ('__iter__', '__getitem__'):
+            try:
+                f = v.cls.lookup(meth)
+            except KeyError:
+                continue
+            if meth == '__iter__':
+                return interp.iterate(interp.call_function(f, [v], {}, node), node)
+            raise AnalysisError('iteration through __getitem__ not modelled', node)
+        if all(isinstance(b, ClassVal) for b in v.cls.bases):
+            raise AbsRaise(ExcVal('TypeError', (f"'{v.cls.name}' object is not iterable",)), node)
+    if isinstance(v, (bool, int, Fr, float, FuncVal, BoundMethod)) or (isinstance(v, Sc) and not isinstance(v, Vec)):
+        raise AbsRaise(ExcVal('TypeError', (f"'{type(v).__name__}' object is not iterable",)), node)
+    # (anything else is a value of the model whose iteration nobody wrote down: refuse rather than invent a TypeError)
+    raise AnalysisError(f'iteration over {type(v).__name__} not modelled', node, where=_where(interp, node))
 
 
 def scalar_of(e, v):
